@@ -219,6 +219,7 @@ pub fn run_matrix(r: &Report) {
     let thorough = r.tier().is_thorough();
     let entries = crate::c01static::all_entries();
     let it = vec![types::nat(Native::Int), types::nat(Native::Text)];
+    let it4 = vec![types::nat(Native::Int), types::nat(Native::Text), types::nat(Native::Varint), types::nat(Native::Boolean)];
     // column types: natives + all of depth 1 + depth 2 (thorough: over every depth-1 type; quick: over the
     // depth-1 types built from int/text/blob/boolean)
     let d1 = types::depth1();
@@ -273,7 +274,7 @@ pub fn run_matrix(r: &Report) {
     vcore::par::for_each(r.args.jobs, 1, work.into_iter(), |w| match w {
         Work::One(t) => do_type(&t),
         Work::Derived(inner) => {
-            for t in types::derived(&inner, &it, &[1, 2]) {
+            for t in types::derived(&inner, if thorough { &it4 } else { &it }, &[1, 2]) {
                 do_type(&t);
             }
         }
@@ -295,7 +296,7 @@ pub fn run_matrix(r: &Report) {
     r.counters.add("carriers_static", entries.len() as u64);
     r.counters.add("carriers_dynamic_shapes", dyn_vts.len() as u64);
     r.counters.add("column_types", n_types.load(Ordering::Relaxed));
-    r.set_rule("E-ENUM full matrix. Rows: every static carrier of the C01 table (760: 31 owned bases x wrappers, borrowed carriers, secrecy) and the dynamic value type shaped as each of ~110 value types. Columns: 20 natives, all depth-1 types (list/set/vector/map/tuple/UDT over all natives), depth-2 types (quick: constructors over the depth-1 types of int/text/blob/boolean + every carrier's documented depth-2 types; thorough: over every depth-1 type). Each cell: serialize a witness with content at every level after one bound value + (static carriers) deserialize type_check, judged against the three-valued relation Accept (documented pair) / Reject (wire shapes differ) / DontCare. distinct_nontrivial = cells decided by the relation (Accept accepted + Reject refused), ser and de.");
+    r.set_rule("E-ENUM full matrix. Rows: every static carrier of the C01 table (795: 31 owned bases x wrappers, borrowed carriers, secrecy, CqlValue inside static wrappers) and the dynamic value type shaped as each of ~110 value types. Columns: 20 natives, all depth-1 types (list/set/vector/map/tuple/UDT over all natives), depth-2 types (quick: constructors over the depth-1 types of int/text/blob/boolean + every carrier's documented depth-2 types; thorough: over every depth-1 type). Each cell: serialize a witness with content at every level after one bound value + (static carriers) deserialize type_check, judged against the three-valued relation Accept (documented pair) / Reject (wire shapes differ) / DontCare. distinct_nontrivial = cells decided by the relation (Accept accepted + Reject refused), ser and de.");
     r.set_exhaustive(true);
     r.assume("Accept = pairs listed in docs/source/data-types (nested structurally, incl. Box/Arc/Cow/Option/MaybeUnset/MaybeEmpty/secrecy wrappers); Reject = different native type (ascii/text interchangeable), sequence vs map vs tuple vs UDT vs vector, vector dimension mismatch, Rust tuple longer than the CQL tuple, UDT of another name or with a field the column type lacks, or any component pair that is Reject; everything else (set-like carrier on a list column, shorter Rust tuple, zero-dimensional vectors, list value on a 1-dimensional vector...) is DontCare");
     r.assume("witness values are non-null and non-empty at every level: null / empty collections carry no element bytes and are accepted for any element type (not a mismatch on the wire)");
@@ -405,6 +406,28 @@ fn failure_kinds() -> Vec<(&'static str, &'static str, FailFn)> {
         k("wrong-native:String->int", "typecheck", |sv| sv.add_value(&"abc".to_string(), &ct("int"))),
         k("wrong-native:CqlValue::Int->bigint", "typecheck", |sv| sv.add_value(&CqlValue::Int(5), &ct("bigint"))),
         k("wrong-native:Option<i64>->int", "typecheck", |sv| sv.add_value(&Some(5i64), &ct("int"))),
+        k("wrong-native:&i32->text", "typecheck", |sv| sv.add_value(&&5i32, &ct("text"))),
+        k("wrong-native:Box<String>->blob", "typecheck", |sv| sv.add_value(&Box::new("x".to_string()), &ct("blob"))),
+        k("wrong-native:MaybeUnset::Set(i64)->int", "typecheck", |sv| sv.add_value(&scylla_cql_core::value::MaybeUnset::Set(5i64), &ct("int"))),
+        k("wrong-native:SecretBox<String>->int", "typecheck", |sv| sv.add_value(&secrecy::SecretBox::new(Box::new("s".to_string())), &ct("int"))),
+        k("three-levels:list<tuple<int,udt>>-inner-field", "typecheck", |sv| {
+            let good = CqlValue::Tuple(vec![Some(CqlValue::Int(1)), Some(cql_udt(vec![("a", Some(CqlValue::Int(1)))], "u1"))]);
+            let bad = CqlValue::Tuple(vec![Some(CqlValue::Int(2)), Some(cql_udt(vec![("a", Some(CqlValue::Text("x".into())))], "u1"))]);
+            sv.add_value(&vec![good, bad], &ct("list<tuple<int,udt:ks.u1<a:int>>>"))
+        }),
+        k("map-2nd-value-list-2nd-element", "typecheck", |sv| {
+            let m: Vec<(CqlValue, CqlValue)> = vec![
+                (CqlValue::Int(1), CqlValue::List(vec![CqlValue::Int(1)])),
+                (CqlValue::Int(2), CqlValue::List(vec![CqlValue::Int(1), CqlValue::Boolean(true)])),
+            ];
+            sv.add_value(&CqlValue::Map(m), &ct("map<int,list<int>>"))
+        }),
+        k("btreemap-last-value:typed", "typecheck", |sv| {
+            let m: std::collections::BTreeMap<i32, CqlValue> = [(1, CqlValue::Int(1)), (2, CqlValue::Int(2)), (3, CqlValue::Text("x".into()))].into_iter().collect();
+            sv.add_value(&m, &ct("map<int,int>"))
+        }),
+        k("vector-of-vector-inner-dimension", "vector-dimension", |sv| sv.add_value(&vec![vec![1i32, 2], vec![3i32]], &ct("vector<vector<int,2>,2>"))),
+        k("set-as-map-column", "typecheck", |sv| sv.add_value(&std::collections::BTreeSet::from([1i32, 2]), &ct("map<int,int>"))),
         k("list-2nd-element:CqlValue", "typecheck", |sv| sv.add_value(&CqlValue::List(vec![CqlValue::Int(1), CqlValue::Text("x".into())]), &ct("list<int>"))),
         k("set-2nd-element:Vec<CqlValue>", "typecheck", |sv| sv.add_value(&vec![CqlValue::Int(1), CqlValue::Int(2), CqlValue::Boolean(true)], &ct("set<int>"))),
         k("list-of-list-inner-2nd", "typecheck", |sv| {
@@ -617,7 +640,7 @@ pub fn run_rollback(r: &Report) {
         }
     }
     check_too_many(r);
-    r.set_rule("E-ENUM rollback. Every sequence of 0..3 (thorough: 0..4) good values over {int, text, list<int>, null, not-set, empty blob} (259 / 1555 prefixes) x every failure kind (29: wrong native type x4; 2nd element/key/value/field failing in list, set, list<list>, map, fixed and variable vector, tuple, UDT, list<UDT>; wrong vector dimension; tuple too long x2; unknown UDT field; UDT name mismatch; empty into non-emptiable x2; value overflow x3; simulated size overflow after 0 / 33+nested bytes, inside list and tuple): the list is bytewise, count-wise and cell-wise identical after the failed add, the error has the expected root cause, and a following good value lands as the reference encodes it; every ordered pair of failures in a row; the 65536th value (good or failing) on a full list. distinct_nontrivial = cases where the failure happened, state was verified intact and the next value verified.");
+    r.set_rule("E-ENUM rollback. Every sequence of 0..3 (thorough: 0..4) good values over {int, text, list<int>, null, not-set, empty blob} (259 / 1555 prefixes) x every failure kind (38: wrong native type x8 incl. through &T, Box, MaybeUnset, SecretBox; three-level nesting list<tuple<int,udt>>; a map's 2nd value whose list's 2nd element fails; typed BTreeMap's last value; inner vector dimension; set bound to a map column; 2nd element/key/value/field failing in list, set, list<list>, map, fixed and variable vector, tuple, UDT, list<UDT>; wrong vector dimension; tuple too long x2; unknown UDT field; UDT name mismatch; empty into non-emptiable x2; value overflow x3; simulated size overflow after 0 / 33+nested bytes, inside list and tuple): the list is bytewise, count-wise and cell-wise identical after the failed add, the error has the expected root cause, and a following good value lands as the reference encodes it; every ordered pair of failures in a row; the 65536th value (good or failing) on a full list. distinct_nontrivial = cases where the failure happened, state was verified intact and the next value verified.");
     r.set_exhaustive(true);
     r.assume("a > 2 GiB value cannot be materialised; the size-overflow path is simulated by a SerializeValue impl that appends bytes (directly and through nested sub-writers) and then returns an error");
     r.sample(json!({"prefix": ["int 1", "list<int> [1,2]"], "failing": "vector-variable-2nd-element", "then": "int 0x11223344"}));
